@@ -868,3 +868,392 @@ def mutate_case(progs):
                 rr.add(Finding('MUTATE-CASE', f['key'], prog.site(f, node) if node is not None else f['loc'],
                                '%s: when %s it %s' % (nm, CASE_TEXT[case], msg), where=f['pname'], unit=prog.uname))
     return rr
+
+
+# ------------------------------------------------------------------------------------------------ SS-CASE
+
+SS = 'amc::SmallSet'
+
+
+class SSInterp:
+    """One member of SmallSet, one state (SMALL: inline and not full, FULL: inline and full, LARGE) and one case of the key (PRESENT /
+    ABSENT).  `_vec` and `_set` are abstract containers: positions are POS (the equivalent element), VEND / SEND (the ends), NEW; their
+    members and the std algorithms over the inline vector are primitives with the std::set / vector semantics of the case; members of
+    SmallSet called on `this` are inlined."""
+
+    def __init__(self, prog, state, present):
+        self.prog, self.state, self.present = prog, state, present
+        self.actions = []
+        self.added = False
+        self.depth = 0
+
+    def small(self):
+        return self.state != 'LARGE'
+
+    def which(self, obj):
+        o = A.strip(obj)
+        if isinstance(o, dict) and o.get('k') == 'mem' and o.get('name') in ('_vec', '_set') and A.root(o.get('base'), {})[0] == 'this':
+            return o['name']
+        return None
+
+    def ev(self, n, fr):
+        n = A.strip(n)
+        if not isinstance(n, dict):
+            return LTOP
+        k = n.get('k')
+        if n.get('cv') is not None and k not in ('ref', 'call', 'construct'):
+            try:
+                return ('int', int(n['cv']))
+            except (TypeError, ValueError):
+                pass
+        if k == 'ref':
+            if n.get('dk') == 'param':
+                return fr.get(('p', n.get('idx')), LTOP)
+            if n.get('dk') == 'local':
+                return fr.get(('l', n.get('did')), LTOP)
+            if n.get('cv') is not None:
+                return ('int', int(n['cv']))
+            return LTOP
+        if k == 'lit':
+            v = n.get('v')
+            if isinstance(v, bool):
+                return ('bool', v)
+            if isinstance(v, int):
+                return ('int', v)
+            return LTOP
+        if k == 'paren':
+            return self.ev(n.get('sub'), fr)
+        if k == 'un':
+            if n.get('op') == '!':
+                return ('bool', not self.truth(n.get('sub'), fr))
+            v = self.ev(n.get('sub'), fr)
+            if n.get('op') == '*' and v[0] in ('vit', 'sit'):
+                return self.deref(v)
+            if n.get('op') == '&' and v[0] == 'velem':
+                return ('vit', v[1])
+            return LTOP
+        if k == 'bin':
+            op = n.get('op')
+            if op in ('&&', '||', '==', '!=', '<', '>', '<=', '>='):
+                return ('bool', self.truth(n, fr))
+            if op == '=':
+                l = A.strip(n.get('lhs'))
+                v = self.ev(n.get('rhs'), fr)
+                if isinstance(l, dict) and l.get('k') == 'ref' and l.get('dk') == 'local':
+                    fr[('l', l.get('did'))] = v
+                return v
+            a, b = self.ev(n.get('lhs'), fr), self.ev(n.get('rhs'), fr)
+            if op == '-' and a == ('vit', 'VEND2') and b == ('int', 1):
+                return ('vit', 'VEND')
+            if op in ('+', '-') and a[0] == 'vit' and b[0] == 'int' and b[1] != 0:
+                return ('vit', 'PART')                 # some position inside the inline vector
+            return LTOP
+        if k == 'cond':
+            return self.ev(n.get('a') if self.truth(n.get('c'), fr) else n.get('b'), fr)
+        if k == 'construct':
+            vals = [self.ev(a, fr) for a in n.get('args', []) or []]
+            if 'std::pair' in (n.get('cls') or n.get('t') or '') and len(vals) == 2:
+                return ('pair', vals[0], vals[1])
+            if 'FindFunctor' in (n.get('cls') or n.get('t') or ''):
+                return ('functor', any(v == ('key',) for v in vals))
+            if len(vals) == 1:
+                return vals[0]
+            return LTOP
+        if k == 'mem' and n.get('name') in ('first', 'second'):
+            b = self.ev(n.get('base'), fr)
+            if b[0] == 'pair':
+                return b[1] if n['name'] == 'first' else b[2]
+            return LTOP
+        if k == 'call':
+            return self.call(n, fr)
+        return LTOP
+
+    def deref(self, v):
+        if v[1] == 'POS' or (v == ('vit', 'VEND') and self.added):
+            return ('key',)                       # the equivalent element / the element just added
+        if v[1] in ('VEND', 'VEND2', 'SEND'):
+            raise _LViolation('dereferences the end of a container')
+        return LTOP
+
+    def truth(self, n, fr):
+        n = A.strip(n)
+        if isinstance(n, dict) and n.get('k') == 'call' and A.callee(n) == '__builtin_expect' and n.get('args'):
+            return self.truth(n['args'][0], fr)
+        if isinstance(n, dict) and n.get('k') == 'bin' and n.get('op') == '&&':
+            return self.truth(n.get('lhs'), fr) and self.truth(n.get('rhs'), fr)
+        if isinstance(n, dict) and n.get('k') == 'bin' and n.get('op') == '||':
+            return self.truth(n.get('lhs'), fr) or self.truth(n.get('rhs'), fr)
+        if isinstance(n, dict) and n.get('k') == 'un' and n.get('op') == '!':
+            return not self.truth(n.get('sub'), fr)
+        if isinstance(n, dict) and ((n.get('k') == 'bin' and n.get('op') in ('==', '!=')) or (n.get('k') == 'call' and n.get('op') in ('==', '!='))):
+            if n.get('k') == 'bin':
+                a, b = self.ev(n.get('lhs'), fr), self.ev(n.get('rhs'), fr)
+            else:
+                ops = ([n.get('obj')] if n.get('obj') is not None else []) + list(n.get('args', []))
+                a, b = self.ev(ops[0], fr), self.ev(ops[1], fr)
+            if ('vsize',) in (a, b):
+                o = b if a == ('vsize',) else a
+                if o[0] != 'int':
+                    raise _LUnknown('size of the inline vector compared with something else than a constant')
+                eq = (self.state == 'FULL') if o[1] > 0 else False
+                if self.added:
+                    raise _LUnknown('size of the inline vector read after an addition')
+            elif a[0] == b[0] and a[0] in ('vit', 'sit'):
+                eq = a[1] == b[1]
+            elif a[0] == b[0] and a[0] in ('bool', 'int'):
+                eq = a[1] == b[1]
+            else:
+                raise _LUnknown('comparison the interpreter cannot decide')
+            return eq if n.get('op') == '==' else not eq
+        v = self.ev(n, fr)
+        if v[0] == 'bool':
+            return v[1]
+        if v[0] == 'int':
+            return v[1] != 0
+        raise _LUnknown('condition the interpreter cannot decide')
+
+    def scan(self, args, fr, what):
+        b, e = self.ev(args[0], fr), self.ev(args[1], fr)
+        f = self.ev(args[2], fr) if len(args) > 2 else LTOP
+        if b != ('vit', 'VBEG') or e[0] != 'vit':
+            raise _LUnknown('%s over a range the interpreter does not follow' % what)
+        if e[1] != 'VEND':
+            if e[1] == 'VEND2':
+                raise _LUnknown('%s over a range that contains the element just added' % what)
+            raise _LViolation('%s covers only a part of the inline vector: an equivalent element outside it is missed' % what)
+        if f != ('functor', True):
+            raise _LUnknown('%s with a predicate that is not the equivalence with the key' % what)
+        if not self.small():
+            raise _LViolation('%s scans the inline vector in the large state (it is empty there)' % what)
+        return ('vit', 'POS') if self.present else e
+
+    def call(self, n, fr):
+        nm, sn, args = A.callee(n), A.cshort(n), n.get('args', []) or []
+        if 'assert' in (n.get('mac') or []):
+            return LTOP
+        if n.get('op') in ('==', '!='):
+            return ('bool', self.truth(n, fr))
+        if n.get('op') == '=' and n.get('obj') is not None and len(args) == 1:
+            l = A.strip(n['obj'])
+            v = self.ev(args[0], fr)
+            if isinstance(l, dict) and l.get('k') == 'ref' and l.get('dk') == 'local':
+                fr[('l', l.get('did'))] = v
+            return v
+        if n.get('op') == '*' and n.get('obj') is not None and not args:
+            v = self.ev(n['obj'], fr)
+            return self.deref(v) if v[0] in ('vit', 'sit') else LTOP
+        if nm in ('std::move', 'std::forward', 'std::as_const') and len(args) == 1:
+            return self.ev(args[0], fr)
+        if sn in ('addressof', '__addressof') and len(args) == 1:
+            v = self.ev(args[0], fr)
+            return ('vit', v[1]) if v[0] == 'velem' else LTOP
+        if nm == 'std::find_if' and len(args) == 3:
+            return self.scan(args, fr, 'the membership scan')
+        if nm in ('std::none_of', 'std::any_of') and len(args) == 3:
+            r = self.scan(args, fr, 'the membership scan')
+            found = r == ('vit', 'POS')
+            return ('bool', found if nm.endswith('any_of') else not found)
+        if nm in ('std::make_move_iterator',) and len(args) == 1:
+            return self.ev(args[0], fr)
+        if nm in ('std::prev',) and args and self.ev(args[0], fr) == ('vit', 'VEND2'):
+            return ('vit', 'VEND')
+        w = self.which(n.get('obj')) if n.get('method') else None
+        if w == '_vec':
+            if sn in ('begin', 'cbegin') and not args:
+                return ('vit', 'VBEG')
+            if sn in ('end', 'cend') and not args:
+                return ('vit', 'VEND2' if self.added else 'VEND')
+            if sn == 'size' and not args:
+                return ('vsize',)
+            if sn == 'empty' and not args:
+                raise _LUnknown('emptiness of the inline vector')
+            if sn in ('push_back', 'emplace_back'):
+                vals = [self.ev(a, fr) for a in args]
+                if not self.small():
+                    raise _LViolation('an element is added to the inline vector in the large state')
+                if self.state == 'FULL':
+                    raise _LViolation('an element is added to the inline vector although it is full')
+                if self.added or ('key',) not in vals:
+                    raise _LUnknown('addition to the inline vector the interpreter does not follow')
+                self.added = True
+                self.actions.append('vadd')
+                return ('velem', 'VEND')
+            if sn == 'back' and not args and self.added:
+                return ('velem', 'VEND')
+            if sn == 'pop_back' and not args:
+                if self.actions and self.actions[-1] == 'vadd':
+                    self.actions.pop()
+                    self.added = False
+                    return LTOP
+                raise _LViolation('pop_back removes an element of the set that is not the one just added')
+            if sn == 'erase' and len(args) == 1:
+                p = self.ev(args[0], fr)
+                if p != ('vit', 'POS'):
+                    raise _LViolation('erases a position of the inline vector that is not the equivalent element (%s)' % (p[1] if len(p) > 1 else '?'))
+                self.actions.append('verase')
+                return p
+            if sn == 'clear' and not args:
+                self.actions.append('vclear')
+                return LTOP
+            if sn in ('key_comp', 'value_comp', 'get_allocator', 'max_size', 'capacity'):
+                return LTOP
+            raise _LUnknown('member %s of the inline vector' % sn)
+        if w == '_set':
+            if sn == 'empty' and not args:
+                return ('bool', self.small())
+            if sn in ('end', 'cend') and not args:
+                return ('sit', 'SEND')
+            if sn in ('insert', 'emplace') and len(args) == 1:
+                v = self.ev(args[0], fr)
+                if v != ('key',):
+                    raise _LUnknown('insertion into the set the interpreter does not follow')
+                if self.small():
+                    raise _LViolation('the key is inserted into the set while the elements live in the inline vector (the set must stay empty until grow())')
+                if self.present:
+                    return ('pair', ('sit', 'POS'), ('bool', False))
+                self.actions.append('sadd')
+                return ('pair', ('sit', 'NEW'), ('bool', True))
+            if sn == 'insert' and len(args) == 2:
+                b, e = self.ev(args[0], fr), self.ev(args[1], fr)
+                if b == ('vit', 'VBEG') and e == ('vit', 'VEND') and not self.added:
+                    self.actions.append('transfer')
+                    self.state = 'LARGE'
+                    self.present_in = 'set'
+                    return LTOP
+                raise _LUnknown('range insertion into the set the interpreter does not follow')
+            if sn == 'erase' and len(args) == 1 and self.ev(args[0], fr) == ('key',):
+                if self.small():
+                    return ('int', 0)
+                if self.present:
+                    self.actions.append('serase')
+                return ('int', 1 if self.present else 0)
+            if sn in ('find', 'count', 'contains') and len(args) == 1 and self.ev(args[0], fr) == ('key',):
+                hit = self.present and not self.small()
+                if sn == 'find':
+                    return ('sit', 'POS' if hit else 'SEND')
+                return ('int', 1 if hit else 0) if sn == 'count' else ('bool', hit)
+            if sn in ('key_comp', 'value_comp', 'get_allocator', 'max_size'):
+                return LTOP
+            raise _LUnknown('member %s of the set' % sn)
+        on_this = n.get('method') and (n.get('obj') is None or A.root(n['obj'], {})[0] == 'this')
+        callee = self.prog.fns.get(n.get('fn')) if n.get('fn') else None
+        if on_this and callee is not None and callee.get('body') is not None and (callee.get('clsq') or '') == SS:
+            if self.depth > 6:
+                raise _LUnknown('inlining too deep')
+            nf = {('p', i): self.ev(a, fr) for i, a in enumerate(args)}
+            self.depth += 1
+            try:
+                self.run(callee['body'], nf)
+                return LTOP
+            except _LRet as r:
+                return r.v
+            finally:
+                self.depth -= 1
+        if n.get('k') == 'call' and sn in ('key_comp', 'value_comp', 'get_allocator'):
+            return LTOP
+        for a in args:
+            self.ev(a, fr)
+        return LTOP
+
+    def run(self, n, fr):
+        if n is None:
+            return
+        if isinstance(n, list):
+            for s in n:
+                self.run(s, fr)
+            return
+        k = n.get('k')
+        if 'assert' in (n.get('mac') or []) or 'arg:assert' in (n.get('mac') or []):
+            return
+        if k == 'block':
+            self.run(n.get('s', []), fr)
+        elif k == 'decl':
+            for v in n.get('vars', []):
+                fr[('l', v['did'])] = self.ev(v['init'], fr) if v.get('init') is not None else LTOP
+        elif k == 'if':
+            if isinstance(n.get('var'), dict) and n['var'].get('init') is not None:
+                fr[('l', n['var']['did'])] = self.ev(n['var']['init'], fr)
+            self.run(n.get('then') if self.truth(n.get('c'), fr) else n.get('else'), fr)
+        elif k == 'ret':
+            raise _LRet(self.ev(n.get('e'), fr) if n.get('e') is not None else LTOP)
+        elif k in A.LOOPS or k in ('try', 'throw', 'switch'):
+            raise _LUnknown('statement the interpreter does not model (%s)' % k)
+        else:
+            self.ev(n, fr)
+
+
+def ss_case(progs):
+    rr = RuleResult('SS-CASE', 'insert(value) / emplace(arg) / find / contains / count / erase(key) of SmallSet do, in each state (inline and not full, inline and full, '
+                               'large) and for a present and an absent key, what std::set does - the key is searched in the whole active container, added exactly once '
+                               'to the right one (inline vector; after grow() the set), erased exactly there - and return the position / flag / count std::set returns')
+    seen = set()
+    STATE_TEXT = {'SMALL': 'the set is inline and not full', 'FULL': 'the set is inline and full', 'LARGE': 'the set is in its large state'}
+    for prog in progs:
+        for f in prog.amc_functions():
+            nm = short(f['name'])
+            ps = f.get('params', [])
+            if f.get('body') is None or f.get('clsq') != SS or nm not in ('insert', 'emplace', 'find', 'contains', 'count', 'erase') or len(ps) != 1 or f.get('access') != 'public':
+                continue
+            t = ps[0]['t']
+            if 'initializer_list' in t or 'node' in t.lower() or 'Iterator' in t or (nm == 'erase' and not t.rstrip().endswith('&')) or t.replace('const ', '').strip().endswith('*'):
+                continue
+            bad, verdicts = None, {}
+            for state in ('SMALL', 'FULL', 'LARGE'):
+                for present in (True, False):
+                    ip = SSInterp(prog, state, present)
+                    try:
+                        try:
+                            ip.run(f['body'], {('p', 0): ('key',)})
+                            res = LTOP
+                        except _LRet as r:
+                            res = r.v
+                    except _LUnknown as e:
+                        rr.broken = rr.broken or 'SS-CASE: cannot interpret %s: %s' % (f['pname'][:100], e)
+                        verdicts = None
+                        break
+                    except _LViolation as v:
+                        bad = (state, present, str(v))
+                        break
+                    small = state != 'LARGE'
+                    acts = ip.actions
+                    if nm in ('insert', 'emplace'):
+                        want = [] if present else (['vadd'] if state == 'SMALL' else ['transfer', 'vclear', 'sadd'] if state == 'FULL' else ['sadd'])
+                        wres = ('pair', ('vit' if small else 'sit', 'POS'), ('bool', False)) if present else \
+                            ('pair', ('vit', 'VEND') if state == 'SMALL' else ('sit', 'NEW'), ('bool', True))
+                        okres = res == wres
+                    elif nm == 'find':
+                        want = []
+                        okres = res == (('vit' if small else 'sit'), 'POS' if present else ('VEND' if small else 'SEND'))
+                    elif nm in ('contains', 'count'):
+                        want = []
+                        okres = res[0] in ('bool', 'int') and int(res[1]) == (1 if present else 0)
+                    else:
+                        want = ([('verase' if small else 'serase')] if present else [])
+                        okres = res[0] in ('bool', 'int') and int(res[1]) == (1 if present else 0)
+                    verdicts['%s/%s' % (state, 'present' if present else 'absent')] = '%s -> %s' % (acts, res)
+                    if acts != want or not okres:
+                        exp_res = _ss_show(wres) if nm in ('insert', 'emplace') else ('the equivalent element, or the end of the active container' if nm == 'find' else ('1' if present else '0'))
+                        bad = (state, present, 'it performs %s and returns %s; std::set semantics: %s, returning %s' % (acts or 'no modification', _ss_show(res), want or 'no modification', exp_res))
+                        break
+                if bad or verdicts is None:
+                    break
+            if verdicts is None:
+                continue
+            rr.instance('%s|%s' % (f['key'], prog.uname), {'function': f['pname'][:130], 'per state and case': verdicts})
+            if bad and f['key'] not in seen:
+                seen.add(f['key'])
+                state, present, msg = bad
+                rr.add(Finding('SS-CASE', f['key'], f['loc'], '%s: when %s and the key is %s: %s' % (nm, STATE_TEXT[state], 'present' if present else 'absent', msg),
+                               where=f['pname'], unit=prog.uname))
+    return rr
+
+
+def _ss_show(v):
+    if v[0] == 'pair':
+        return '(%s, %s)' % (_ss_show(v[1]), _ss_show(v[2]))
+    if v[0] in ('vit', 'sit'):
+        return {'POS': 'the equivalent element', 'VEND': 'the end of the inline vector (where a new element is placed)', 'VEND2': 'the end of the inline vector', 'SEND': 'the end of the set',
+                'NEW': 'the new element of the set', 'VBEG': 'the beginning of the inline vector'}.get(v[1], v[1]) + (' [inline vector]' if v[0] == 'vit' else ' [set]')
+    if v[0] in ('bool', 'int'):
+        return str(v[1]).lower()
+    return 'a value the interpreter does not follow'
